@@ -178,7 +178,7 @@ def execute(case):
         # x[I] = sum_k i_k ; univariate f applied to actual entries of x
         if case["target"] == "sparse1":
             x = T.TT([c_.clone() for c_ in Tc])
-            ref = ref * ref
+            ref = dense(Tc) ** 2 * sc            # f(v) = v*v*sc on the unscaled argument tensor
         else:
             xs = T.meshgrid([torch.arange(n, dtype=torch.float64) for n in N])
             x = xs[0]
